@@ -38,7 +38,7 @@ const (
 	findObjectByBucketNameAndKeyAndVersionIDStmt                                                                    = "SELECT id, bucket_name, key, content_type, cache_control, content_disposition, content_encoding, content_language, expires, website_redirect_location, etag, checksum_crc32, checksum_crc32c, checksum_crc64nvme, checksum_sha1, checksum_sha256, checksum_type, size, version_id, is_delete_marker, is_latest, upload_status, upload_id, optimistic_lock_version, created_at, updated_at, storage_class FROM objects WHERE bucket_name = $1 AND key = $2 AND version_id = $3 AND upload_status = $4"
 	findNullObjectVersionByBucketNameAndKeyStmt                                                                     = "SELECT id, bucket_name, key, content_type, cache_control, content_disposition, content_encoding, content_language, expires, website_redirect_location, etag, checksum_crc32, checksum_crc32c, checksum_crc64nvme, checksum_sha1, checksum_sha256, checksum_type, size, version_id, is_delete_marker, is_latest, upload_status, upload_id, optimistic_lock_version, created_at, updated_at, storage_class FROM objects WHERE bucket_name = $1 AND key = $2 AND version_id = 'null' AND upload_status = $3"
 	findLatestObjectByBucketNameAndKeyExcludingIDStmt                                                               = "SELECT id, bucket_name, key, content_type, cache_control, content_disposition, content_encoding, content_language, expires, website_redirect_location, etag, checksum_crc32, checksum_crc32c, checksum_crc64nvme, checksum_sha1, checksum_sha256, checksum_type, size, version_id, is_delete_marker, is_latest, upload_status, upload_id, optimistic_lock_version, created_at, updated_at, storage_class FROM objects WHERE bucket_name = $1 AND key = $2 AND upload_status = $3 AND id != $4 ORDER BY created_at DESC LIMIT 1"
-	clearLatestObjectByBucketNameAndKeyStmt                                                                         = "UPDATE objects SET is_latest = 0, updated_at = $3 WHERE bucket_name = $1 AND key = $2 AND upload_status = $4 AND is_latest = 1"
+	clearLatestObjectByBucketNameAndKeyStmt                                                                         = "UPDATE objects SET is_latest = 0 WHERE bucket_name = $1 AND key = $2 AND upload_status = $3 AND is_latest = 1"
 	deleteObjectByIdStmt                                                                                            = "DELETE FROM objects WHERE id = $1"
 	deleteObjectByIdAndOptimisticLockVersionStmt                                                                    = "DELETE FROM objects WHERE id = $1 AND optimistic_lock_version = $2"
 )
@@ -127,7 +127,13 @@ func (or *sqliteRepository) SaveObject(ctx context.Context, tx *sql.Tx, object *
 		_, err := tx.ExecContext(ctx, insertObjectStmt, object.Id.String(), object.BucketName.String(), object.Key.String(), object.ContentType, object.CacheControl, object.ContentDisposition, object.ContentEncoding, object.ContentLanguage, object.Expires, object.WebsiteRedirectLocation, object.ETag, object.ChecksumCRC32, object.ChecksumCRC32C, object.ChecksumCRC64NVME, object.ChecksumSHA1, object.ChecksumSHA256, object.ChecksumType, object.Size, object.VersionID, object.IsDeleteMarker, object.IsLatest, object.UploadStatus, ptrutils.MapPtr(object.UploadId, mapUploadIdToString), object.OptimisticLockVersion, object.CreatedAt, object.UpdatedAt, object.StorageClass)
 		return err
 	}
-	object.UpdatedAt = time.Now().UTC()
+	// updated_at is reported as the object's Last-Modified. It only moves
+	// when the caller writes new content: a row that is saved again for a
+	// metadata change (is_latest, storage class, tags, lock version) keeps
+	// the timestamp it was loaded with.
+	if object.UpdatedAt.IsZero() {
+		object.UpdatedAt = time.Now().UTC()
+	}
 	res, err := tx.ExecContext(ctx, updateObjectByIdStmt, object.BucketName.String(), object.Key.String(), object.ContentType, object.CacheControl, object.ContentDisposition, object.ContentEncoding, object.ContentLanguage, object.Expires, object.WebsiteRedirectLocation, object.ETag, object.ChecksumCRC32, object.ChecksumCRC32C, object.ChecksumCRC64NVME, object.ChecksumSHA1, object.ChecksumSHA256, object.ChecksumType, object.Size, object.VersionID, object.IsDeleteMarker, object.IsLatest, object.UploadStatus, ptrutils.MapPtr(object.UploadId, mapUploadIdToString), object.StorageClass, object.UpdatedAt, object.Id.String())
 	if err != nil {
 		return err
@@ -175,7 +181,10 @@ func (or *sqliteRepository) UpdateObjectByIdAndOptimisticLockVersion(ctx context
 	mapUploadIdToString := func(uploadId storage.UploadId) string {
 		return uploadId.String()
 	}
-	object.UpdatedAt = time.Now().UTC()
+	// See SaveObject: only content writes move updated_at.
+	if object.UpdatedAt.IsZero() {
+		object.UpdatedAt = time.Now().UTC()
+	}
 	res, err := tx.ExecContext(ctx, updateObjectByIdAndOptimisticLockVersionStmt, object.BucketName.String(), object.Key.String(), object.ContentType, object.CacheControl, object.ContentDisposition, object.ContentEncoding, object.ContentLanguage, object.Expires, object.WebsiteRedirectLocation, object.ETag, object.ChecksumCRC32, object.ChecksumCRC32C, object.ChecksumCRC64NVME, object.ChecksumSHA1, object.ChecksumSHA256, object.ChecksumType, object.Size, object.VersionID, object.IsDeleteMarker, object.IsLatest, object.UploadStatus, ptrutils.MapPtr(object.UploadId, mapUploadIdToString), object.StorageClass, object.UpdatedAt, object.Id.String(), optimisticLockVersion)
 	if err != nil {
 		return nil, err
@@ -420,6 +429,6 @@ func (or *sqliteRepository) FindLatestObjectByBucketNameAndKeyExcludingID(ctx co
 }
 
 func (or *sqliteRepository) ClearLatestObjectByBucketNameAndKey(ctx context.Context, tx *sql.Tx, bucketName storage.BucketName, key storage.ObjectKey) error {
-	_, err := tx.ExecContext(ctx, clearLatestObjectByBucketNameAndKeyStmt, bucketName.String(), key.String(), time.Now().UTC(), object.UploadStatusCompleted)
+	_, err := tx.ExecContext(ctx, clearLatestObjectByBucketNameAndKeyStmt, bucketName.String(), key.String(), object.UploadStatusCompleted)
 	return err
 }
